@@ -2,7 +2,8 @@
   Shared handler of the C04 / C05 drivers.
   ops:  {"op":"vm","t":v,"a":v,"la":v}                      → {"r":"ok"} | {"r":"bad","d":b,"x":b}
         {"op":"meets","mode":"full"|"excl","t":v,"l":v,"la":v} → {"b":bool}
-        {"op":"wf","t":v}                                  → {"wf":b,"nonulls":b}
+        {"op":"wf","t":v}                                  → {"wf":b,"nonulls":b,"nodup":b,"annfree":b}
+        {"op":"laok","t":v,"la":v}                         → {"b":bool}
         {"op":"update","spec":v|absent}                    → {"p":policy} | {"p":null}
         {"op":"pass","cfg":{..},"t":v,"cluster":v|null}    → {"rs":[{"cluster":v|null,"o":outcome,"reqs":[..]}]}
   The codec of the driver is the wire text itself (harness rewrites annotation texts accordingly).
@@ -84,9 +85,19 @@ def handle (j : J) : Except String J := do
     let m ← match ← j.getStr "mode" with
       | "full" => pure Mode.full | "excl" => pure Mode.excl | x => throw s!"bad mode {x}"
     pure (.obj [("b", .bool (meetsB m (← toJVal (j.getD "t")) (← toJVal (j.getD "l")) (← toJVal (j.getD "la"))))])
+  | "unit" =>
+    let t ← toJVal (j.getD "t")
+    let a ← toJVal (j.getD "a")
+    let la ← toJVal (j.getD "la")
+    pure (.obj [("vm", ofRes (validateMatch t a la false)), ("full", .bool (meetsB .full t a la)),
+      ("excl", .bool (meetsB .excl t a .null)), ("wf", .bool (wfB t)), ("nonulls", .bool (noNullsB t)),
+      ("laok", .bool (laOkB t la))])
+  | "laok" =>
+    pure (.obj [("b", .bool (laOkB (← toJVal (j.getD "t")) (← toJVal (j.getD "la"))))])
   | "wf" =>
     let t ← toJVal (j.getD "t")
-    pure (.obj [("wf", .bool (wfB t)), ("nonulls", .bool (noNullsB t)), ("nodup", .bool (noDupB t))])
+    pure (.obj [("wf", .bool (wfB t)), ("nonulls", .bool (noNullsB t)), ("nodup", .bool (noDupB t)),
+      ("annfree", .bool (annFree t))])
   | "update" =>
     let spec ← match j.get? "spec" with
       | some s => do pure (some (← toJVal s))
